@@ -30,6 +30,8 @@ def prop(pid, tasks, **kw):
 # ---------------------------------------------------------------------------------------------
 prop("C16", [
     dict(engine="verus", unit="bucket"),
+    dict(engine="verus", unit="cookies"),
+    dict(engine="kani", sets=["dns_bucket"]),
 ], explanation="token bucket contracts (check/deplete) against avail(); rate-bound and quiet-client lemmas over the contracts",
     assumptions=["clock readings satisfy 50 <= now <= 0xF0000000 (trait Clock::now ensures, assumed)",
                  "deplete is evaluated at the same clock reading as the check that granted it (single task; read-then-write race not modelled)"])
